@@ -168,6 +168,10 @@ func ChanR(args []string) {
 			return crFrame{frameOf(e.body[:len(e.body)-s]), nil, fmt.Sprintf("%s body short by %d", e.kind, s)}
 		case "p0", "p1", "p2", "p3", "p4":
 			return crFrame{le32(uint32(class[1] - '0')), nil, "bare prefix " + class[1:]}
+		case "p5", "p6":
+			// a complete runt frame: prefix, type byte (and half a tag)
+			n := int(class[1] - '0')
+			return crFrame{append(le32(uint32(n)), []byte{byte(100 + 2*(k%14)), 7}[:n-4]...), nil, "runt frame, prefix " + class[1:]}
 		case "cut":
 			e := valid[(rot+3)%len(valid)]
 			fr := frameOf(e.body)
